@@ -23,6 +23,7 @@ CONSTANTS Fams,         \* names of the bounded families to explore (fields of F
           Reader,       \* "pinned" | "fixed"
           Writer,       \* "arg" (records.cpp) | "fmt" (separator inside the print format)
           DelimRun,     \* "classes": one delimiter per class (',' tab space) | "plan": DelimsFor(family, table)
+          ScaleTier,    \* "quick" | "thorough": which scale cases are exported
           DoExport      \* TRUE: print every table as JSON
 
 VARIABLES phase, fam, lay, t, dc, dcd, txt, pos, ri, fi, cur, acc, res
@@ -258,11 +259,52 @@ DelimIndependent == phase = "table" =>
 \* exactly when the delimiter is the percent sign and some number is written after a separator
 FmtWriterCharacterised == phase = "done" => (RoundTripped <=> ~(dcd = 37 /\ TCHasLedNumber(t)))
 
+\* ---- scale: the laws, and the cases whose size no family reaches ----------------------------
+\* the split laws hold for whatever rows the scanner model returned (the wrong ones of the pinned scanner included)
+ObsOfRes(entry) == [TCRefObs(t, entry) EXCEPT !.rows = res.val]
+SplitLaws == (phase = "done" /\ IsOk(res) /\ Len(res.val) = Len(t.rows)) =>
+    /\ TCRowSplitLaw(t, ObsOfRes("sfile")) /\ TCColSplitLaw(t, ObsOfRes("sfile"))
+    /\ TCRowSplitLaw(t, ObsOfRes("recfile")) /\ TCColSplitLaw(t, ObsOfRes("recfile"))
+WriteLaws == phase = "table" => TCWriteLaws(t)
+
+\* A scale case is a small base table (one pattern of fields, two rows; three rotations so that the first value of
+\* the file is an integer, a float and a string in turn) blown up along one axis by the adapter:
+\*   rows  : the base rows repeated to n rows;                  cols : the base fields repeated to n columns;
+\*   elems : the base table with every field widened to n elements;
+\*   hdr   : a table whose sfile header is tuned (number of columns, lengths of the field names; with user = TRUE a
+\*           few columns and a long user header entry instead) so that the line END starts `off` bytes after a
+\*           multiple `blk` of a stdio block: the marker "\nEND\n" straddles the boundary in every position.
+\* Sizes sit at, next to and across powers of two and block sizes; they do and do not divide them.
+SField(n, k, w, sh) == [name |-> n, k |-> k, w |-> w, sh |-> sh]
+SBaseFields == <<SField("a", "i", 8, <<>>), SField("b", "f", 8, <<>>), SField("c", "S", 5, <<>>), SField("d", "i", 4, <<2>>)>>
+SBaseRows   == << << <<"max">>, <<"fl">>, << <<"x", "dl", "sp", "x">> >>, <<"min", "p1">> >>,
+                  << <<"m1">>, <<"nan">>, << <<>> >>, <<"z", "max">> >> >>
+Rot(q, j) == [i \in 1..Len(q) |-> q[((i + j - 1) % Len(q)) + 1]]
+SBase(j)  == [fields |-> Rot(SBaseFields, j), rows |-> [r \in 1..2 |-> Rot(SBaseRows[r], j)]]
+SDelims   == IF ScaleTier = "quick" THEN {44, 9} ELSE {44, 9, 32, 37, 124}
+Around(S) == UNION {{x - 1, x, x + 1} : x \in S}
+SRowsN  == IF ScaleTier = "quick" THEN {65537, 100000} ELSE Around({65536, 131072, 262144}) \cup {99991, 100000, 196608, 1000003}
+SColsN  == IF ScaleTier = "quick" THEN {50, 200, 700} ELSE {50, 100, 200, 400, 700, 1000}
+SElemsN == IF ScaleTier = "quick" THEN {1024, 3001} ELSE Around({512, 1024, 2048}) \cup {3001, 10000}
+SBlocks == IF ScaleTier = "quick" THEN {4096, 8192, 16384} ELSE {4096, 8192, 16384, 24576, 32768, 65536}
+SOffs   == (0 - 8)..8
+ScaleCases ==
+    {[axis |-> "rows", base |-> SBase(j), n |-> n, dcode |-> d, blk |-> 0, off |-> 0, user |-> FALSE] :
+        j \in {0, 2}, n \in SRowsN, d \in SDelims} \cup
+    {[axis |-> "cols", base |-> SBase(j), n |-> n, dcode |-> d, blk |-> 0, off |-> 0, user |-> FALSE] :
+        j \in {0, 1, 2}, n \in SColsN, d \in SDelims} \cup
+    {[axis |-> "elems", base |-> SBase(j), n |-> n, dcode |-> d, blk |-> 0, off |-> 0, user |-> FALSE] :
+        j \in {0, 1}, n \in SElemsN, d \in SDelims} \cup
+    {[axis |-> "hdr", base |-> SBase((b \div 4096 + o + 8) % 3), n |-> 0, dcode |-> IF (o % 2) = 0 THEN 44 ELSE 9, blk |-> b, off |-> o, user |-> u] :
+        b \in SBlocks, o \in SOffs, u \in (IF ScaleTier = "quick" THEN {FALSE} ELSE BOOLEAN)} \cup
+    {[axis |-> "hdr", base |-> SBase(0), n |-> 0, dcode |-> 44, blk |-> 8192, off |-> o, user |-> TRUE] : o \in {0 - 4, 0 - 1, 0, 1, 3}}
+
 \* ---- export ------------------------------------------------------------------------
 Pred(d) == [hz |-> TCHazard(t, d), rt |-> TCRoundTrips(t, d, Reader)]
 Export ==
     /\ (DoExport /\ phase = "start") =>
           /\ \A fm \in Fams : PrintT(<<"FAMILY", ToJson([name |-> fm, def |-> FamDefs[fm]])>>)
+          /\ \A sc \in ScaleCases : PrintT(<<"SCALE", ToJson(sc)>>)
           /\ \A c \in TCDelimUniverse : PrintT(<<"DELIM", ToJson([code |-> c, cls |-> TCDelimClass(c), grp |-> TCDelimGroup(c),
                                                                   quant |-> c \in TCQuantDelims])>>)
     /\ (DoExport /\ phase = "table") =>
